@@ -310,8 +310,9 @@ func runCase(c Case, u *vf.Unit, trace *any) *vf.Verdict {
 	if wire {
 		w.Observe()
 	}
+	var aliveUntil time.Duration // set when both connections were alive at the end of the transfers
 	wireVerdict := func() *vf.Verdict {
-		for _, f := range w.WireCheck(sim.WireOptions{}) {
+		for _, f := range w.WireCheck(sim.WireOptions{AliveUntil: aliveUntil}) {
 			for _, pre := range curOpt.WirePrefixes {
 				if strings.HasPrefix(f.Sig, pre) {
 					return vf.Bad(f.Sig, "%s", f.Detail)
@@ -549,6 +550,9 @@ func runCase(c Case, u *vf.Unit, trace *any) *vf.Verdict {
 	stalled := !sim.WaitCtx(done, 140*time.Second)
 	cerr, serr := context.Cause(cconn.Context()), context.Cause(sconn.Context())
 	endAt := w.Router.Now()
+	if cerr == nil && serr == nil {
+		aliveUntil = endAt
+	}
 	cconn.CloseWithError(0, "done")
 	sconn.CloseWithError(0, "done")
 	cancel()
